@@ -171,6 +171,17 @@ func fnGetEx(ctx *cmdContext, args map[string]any) (output respValue, err error)
 		return
 	}
 
+	changesExpiry := false
+	for name := range args {
+		if strings.HasPrefix(name, "expiration.") {
+			changesExpiry = true
+		}
+	}
+	if !changesExpiry {
+		// GETEX without an option is a plain GET: the TTL is left alone
+		return fnGet(ctx, args)
+	}
+
 	str, valueExists := ctx.dsc.getKeySetExpiration(keyName, expiration)
 	if valueExists == VALUE_WRONG_TYPE {
 		output.data = wrongTypeError
